@@ -232,6 +232,8 @@ func (g *Gen) mapLookup(st *State, m T, k string) (val T, has string) {
 	va, ha, ks, vs := g.mapArrs(mt)
 	v := sel(sel(g.arr(st, va, fmt.Sprintf("(Array %s %s)", ks, vs)), m.S), k)
 	h := sel(sel(g.arr(st, ha, fmt.Sprintf("(Array %s Bool)", ks)), m.S), k)
+	// a nil map has no entries
+	h = sAnd(sNot(sEq(m.S, "0")), h)
 	return mk(v, vs, mt.Elem()), h
 }
 
